@@ -31,7 +31,7 @@ def sh(cmd, cwd=None, timeout=1800, env=None):
 
 def run_demo(wt, src):
     demo = None
-    for cand in ("demo.janet", "demo.sh"):
+    for cand in ("demo.sh", "demo.janet"):      # prefer the janet file when both exist
         if os.path.exists(os.path.join(src, cand)):
             demo = cand
     if demo is None:
